@@ -203,7 +203,12 @@ method("_process_messages", "(%s, messages: List[SourcedMessage]) -> Any" % SELF
 
 method("_handle_processor_error", "(%s, failure: Ref_Failure) -> None" % SELF, props=["C13", "C03"],
        requires=["self._start_d is None or not called(self._start_d)"],
-       checkpoints={"fire:errback#1": {"reports-real-failures-only[C13]": "not (self._stopping and exc_is(failure, 't.CancelledError'))"}})
+       checkpoints={"fire:errback#1": {"reports-real-failures-only[C13]": "not (self._stopping and exc_is(failure, 't.CancelledError'))"}},
+       # C03/C13: a processor failure is an unrecoverable error - it reaches start()'s Deferred unless it is merely the
+       # cancellation stop() itself issued; a cancellation that did NOT come from stop() is a failure like any other
+       ensures={"every-real-failure-is-reported[C03,C13]":
+                "implies(old(self._start_d) is not None and not (old(self._stopping) and exc_is(failure, 't.CancelledError')), "
+                "n_events('Fired') == 1)"})
 
 method("_handle_fetch_response", "(%s, responses: List[FetchResponse]) -> None" % SELF, props=["C02", "C12", "C14"],
        requires=["self._start_d is not None", "not called(self._start_d)", "self._fetch_offset is not None", "self._fetch_offset >= 0"],
